@@ -36,8 +36,9 @@ T == JsonDeserialize(IOEnv.TRACES)
 VARIABLES sid, kind, i, done, v
 vars == <<sid, kind, i, done, v>>
 
-Clauses == {"EnvLegal", "RegisterAtPublishedAddress", "MultiWordAccessorsCompose", "FieldMacrosTrue",
-            "MemoryRegionAnswers", "CsrWindowAnswers", "ConstantsAndIrqs", "FormatsAgree", "MemImageLanes"}
+Clauses == {"EnvLegal", "RegisterAtPublishedAddress", "MultiWordAccessorsCompose", "FieldMacrosTrue", "SvdFieldsTrue",
+            "MemoryRegionAnswers", "CsrWindowAnswers", "ConstantsAndIrqs", "FormatsAgree", "MemImageLanes",
+            "MemImageInRegion"}
 
 ---------------------------------------------------------------------------
 (* addresses *)
@@ -179,6 +180,25 @@ RegFields(r) ==
         /\ Slice(RegValue(r), f.off, f.size) = Slice(f.sig, 0, f.size)
         /\ \A k \in f.size..(8 * Len(f.sig) - 1) : BitAt(f.sig, k) = 0          \* the signal is not wider
 
+(* soc.svd publishes the fields of a register word by word (<field> name / lsb / msb / bitRange inside the word  *)
+(* that starts at bit `start` of the register, "Bits start-.. of `REG`"): the bits published for a hardware field *)
+(* under its name, over all words, are one contiguous range of the register, and that range carries the hardware *)
+(* field signal (the whole signal).  svdf entries: <<start, name, lsb, msb, bitRange lsb, bitRange msb>>.        *)
+SvdBitsOf(r, name) == UNION {(e[1] + e[3])..(e[1] + e[4]) : e \in {x \in ToSet(r.svdf) : x[2] = name}}
+RegSvdFields(r) ==
+  Judged(r) /\ (IF r.kind = "sto" THEN r.wdone = 1 ELSE r.rdone = 1) =>
+    /\ \A j \in 1..Len(r.svdf) : r.svdf[j][3] = r.svdf[j][5] /\ r.svdf[j][4] = r.svdf[j][6]     \* bitRange = [msb:lsb]
+    /\ \A j \in 1..Len(r.flds) :
+         LET f == r.flds[j]
+             bits == SvdBitsOf(r, f.name)
+             lo == CHOOSE x \in bits : \A y \in bits : x <= y
+             n == Cardinality(bits)
+         IN /\ bits # {}
+            /\ bits = lo..(lo + n - 1)
+            /\ lo + n <= r.size
+            /\ Slice(RegValue(r), lo, n) = Slice(f.sig, 0, n)
+            /\ \A k \in n..(8 * Len(f.sig) - 1) : BitAt(f.sig, k) = 0
+
 (* csr.h (define and accessors), csr.json, csr.csv and soc.svd name the same place *)
 RegFormats(r) ==
   /\ Pub(r.a.h) /\ r.a.h = r.a.json /\ r.a.h = r.a.csv
@@ -200,19 +220,43 @@ RegFormats(r) ==
   /\ (r.hw = 0 => r.filler = 1 /\ Len(r.svd) = r.nw.h /\ (r.nw.h = 1 => r.svd[1][3] = r.a.h))
 
 ---------------------------------------------------------------------------
-(* CSR-mapped memories: word k of the memory is the CSR word at base + 4k *)
+(* CSR-mapped memories.  A memory word takes n = ceil(width / CSR data width) consecutive CSR words, most     *)
+(* significant first (the order of the multi-word accessors and of hw/common.h), the last one written commits. *)
+(* CSR word x of the memory is at base + 4 * (x mod page words) with <mem>_page = x div page words when the    *)
+(* memory is deeper than a page (page words = paging / 4); the page register is a published CSRStorage of its   *)
+(* own, written by the harness through its published accessor beforehand; pagereg = what it holds.             *)
 W == S.wins[i]
+Cpw(w) == (w.width + S.cfg.cdw - 1) \div S.cfg.cdw
+PageWords == S.cfg.paging \div 4
+Paged(w) == w.depth * Cpw(w) > PageWords
 WinAnswers(w) ==
   w.hw = 1 =>
     /\ Pub(w.a.h)
-    /\ (w.width <= S.cfg.cdw => Len(w.probes) = 2 \/ (w.skip = 1 /\ S.dead = 1))
+    /\ \/ /\ \E j \in 1..Len(w.probes) : w.probes[j].k = 0
+          /\ \E j \in 1..Len(w.probes) : w.probes[j].k = w.depth - 1
+          /\ (w.depth > 2 => \E j \in 1..Len(w.probes) : w.probes[j].k \in 1..(w.depth - 2))
+       \/ (w.skip = 1 /\ S.dead = 1)
     /\ \A j \in 1..Len(w.probes) :
-         LET p == w.probes[j] IN
-           /\ p.addr = AddOff(w.a.h, 4 * p.k)
-           /\ (p.we = 1 => /\ p.resp = 0
+         LET p == w.probes[j]
+             n == Cpw(w)
+             x == p.k * n
+             a == AddOff(w.a.h, 4 * (x % PageWords))
+             wa == GenericW(a, n, S.cfg.cdw)
+         IN
+           /\ p.k \in 0..(w.depth - 1) /\ p.own >= 1
+           /\ p.page = (IF Paged(w) THEN x \div PageWords ELSE -1)
+           /\ p.pagereg = p.page
+           /\ (p.we = 1 => /\ w.ro = 0 /\ Len(p.wops) = n
+                           /\ \A m \in 1..n : /\ p.wops[m][1] = wa[m][2] /\ p.wops[m][3] = 0
+                                              /\ Len(p.wops[m][2]) = 4
+                                              /\ ValBits(p.wops[m][2]) = ShrBits(ValBits(Pad(p.data, 4 * n)), wa[m][1], 32)
+                           /\ Below(p.data, w.width)
                            /\ EqV(p.cell, p.data)
-                           /\ ToSet(p.changed) = {w.cells[j]})
-           /\ p.rresp = 0 /\ EqV(p.rd, p.cell)
+                           /\ ToSet(p.changed) = {p.own})
+           /\ (p.we = 0 => w.ro = 1)
+           /\ Len(p.rops) = n
+           /\ \A m \in 1..n : p.rops[m][1] = wa[m][2] /\ p.rops[m][3] = 0
+           /\ EqBits(RunRead(GenericR(a, n, S.cfg.cdw), p.rops, 4 * n, 1, 1, <<>>), ValBits(p.cell))
 WinFormats(w) == w.hw = 1 => Pub(w.a.h) /\ w.a.h = w.a.json /\ w.a.h = w.a.csv /\ w.a.h = w.a.svd
 BankFormats(b) == Pub(b.a.h) /\ b.a.h = b.a.json /\ b.a.h = b.a.csv /\ b.a.h = b.a.svd
 
@@ -221,7 +265,30 @@ BankFormats(b) == Pub(b.a.h) /\ b.a.h = b.a.json /\ b.a.h = b.a.csv /\ b.a.h = b
 G == S.regions[i]
 InSomeRegion(a) == \E j \in 1..Len(S.regions) :
                      LET g == S.regions[j] IN Pub(g.base.memh) /\ InRange(a, g.base.memh, g.size.memh)
-RegionEnv(g) == g.kind \in {"ram", "rom", "csr"}
+RegionEnv(g) ==
+  /\ g.kind \in {"ram", "rom", "csr"}
+  /\ g.img.src \in {"none", "file", "init"} /\ g.img.e \in {"big", "little"} /\ IsBytes(g.img.file)
+  /\ (g.img.src # "none" => g.kind = "rom" /\ Len(g.img.file) >= 1 /\ g.img.src = S.cfg.romsrc /\ g.img.e = S.cfg.rome)
+  /\ (g.kind = "rom" /\ S.cfg.romsrc # "words" => g.img.src # "none")
+  /\ \A j \in 1..Len(g.img.rd) : g.img.rd[j].k \in 0..(Len(g.img.file) - 1)
+
+(* a ROM whose contents come from a binary file (packed by get_mem_data for the bus data width and the CPU's   *)
+(* endianness, handed to add_rom or loaded later with init_rom): byte k of the file is what a CPU of that       *)
+(* endianness reads at the published base + k.  Such a CPU finds byte address a of an n-byte bus word on lane    *)
+(* a mod n (little) / n-1-(a mod n) (big); the harness's master has little-endian lanes, pa is the address it    *)
+(* used.  First, last and some inner bytes of the file are read.                                                 *)
+PhysOff(e, n, k) == IF e = "little" THEN k ELSE (k - (k % n)) + (n - 1 - (k % n))
+RegionImage(g) ==
+  g.img.src # "none" =>
+    /\ Pub(g.base.memh)
+    /\ \/ /\ \E j \in 1..Len(g.img.rd) : g.img.rd[j].k = 0
+          /\ \E j \in 1..Len(g.img.rd) : g.img.rd[j].k = Len(g.img.file) - 1
+       \/ S.dead = 1
+    /\ \A j \in 1..Len(g.img.rd) :
+         LET x == g.img.rd[j] IN
+           /\ x.pa = AddOff(g.base.memh, PhysOff(g.img.e, S.cfg.dw \div 8, x.k))
+           /\ x.resp = 0
+           /\ x.b = g.img.file[x.k + 1]
 RegionAnswers(g) ==
   /\ Pub(g.base.memh)
   /\ (g.kind \in {"ram", "rom"} =>
@@ -281,7 +348,7 @@ SocEnv(s) ==
         /\ (s.dead = 1 =>
               \/ \E j \in 1..Len(s.regs) : Hung(s.regs[j].wops) \/ Hung(s.regs[j].rops)
               \/ \E j \in 1..Len(s.wins) : \E k \in 1..Len(s.wins[j].probes) :
-                    s.wins[j].probes[k].resp > 0 \/ s.wins[j].probes[k].rresp > 0
+                    Hung(s.wins[j].probes[k].wops) \/ Hung(s.wins[j].probes[k].rops)
               \/ \E j \in 1..Len(s.regions) : \E k \in 1..Len(s.regions[j].probes) :
                     s.regions[j].probes[k].resp > 0 \/ s.regions[j].probes[k].rresp > 0))
   /\ s.cfg.std \in {"wishbone", "axi-lite", "axi"} /\ s.cfg.dw \in {32, 64} /\ s.cfg.cdw \in {8, 32}
@@ -319,6 +386,7 @@ Verdict ==
                [] c = "RegisterAtPublishedAddress" -> RegAtAddress(R)
                [] c = "MultiWordAccessorsCompose" -> RegCompose(R)
                [] c = "FieldMacrosTrue" -> RegFields(R)
+               [] c = "SvdFieldsTrue" -> RegSvdFields(R)
                [] c = "FormatsAgree" -> RegFormats(R)
                [] OTHER -> TRUE)
        [] kind = "win" ->
@@ -329,6 +397,7 @@ Verdict ==
        [] kind = "region" ->
             (CASE c = "EnvLegal" -> RegionEnv(G)
                [] c = "MemoryRegionAnswers" -> RegionAnswers(G)
+               [] c = "MemImageInRegion" -> RegionImage(G)
                [] c = "FormatsAgree" -> RegionFormats(G)
                [] OTHER -> TRUE)
        [] kind = "irq" ->
@@ -356,9 +425,11 @@ EnvLegal                   == v["EnvLegal"]
 RegisterAtPublishedAddress == v["RegisterAtPublishedAddress"]
 MultiWordAccessorsCompose  == v["MultiWordAccessorsCompose"]
 FieldMacrosTrue            == v["FieldMacrosTrue"]
+SvdFieldsTrue              == v["SvdFieldsTrue"]
 MemoryRegionAnswers        == v["MemoryRegionAnswers"]
 CsrWindowAnswers           == v["CsrWindowAnswers"]
 ConstantsAndIrqs           == v["ConstantsAndIrqs"]
 FormatsAgree               == v["FormatsAgree"]
 MemImageLanes              == v["MemImageLanes"]
+MemImageInRegion           == v["MemImageInRegion"]
 =============================================================================
